@@ -66,6 +66,9 @@ def respace(rnd, line):
             out.append(c)
         elif c == ',' and rnd.random() < 0.6:
             out.append(rnd.choice([' ,', ', ', ' , ', '  ,  ']))
+        elif c == '(' and out and (out[-1][-1:].isalnum() or out[-1][-1:] == '_') and rnd.random() < 0.3 and \
+                not re.search(r'(^|[^\w])(return|if|elif|while|in|jumpif|include|jump)$', ''.join(out)):
+            out.append(' (')          # a blank between a function name and its parenthesis (call or definition header)
         elif c == '(' and rnd.random() < 0.4:
             out.append('( ')
         elif c == ')' and rnd.random() < 0.4:
